@@ -1,5 +1,4 @@
-(* Proofs/MiscHopByHop.v — ParseHopByHopExtensions terminates without panic exactly when
-   the header has >= 2 bytes and its declared length fits the capacity. *)
+(* Proofs/MiscHopByHop.v — ParseHopByHopExtensions (with its length guard) is total. *)
 From PV Require Import Base.Prelude Base.Slice Model.MiscHopByHop Proofs.HandlersTac.
 Open Scope N_scope.
 
@@ -26,46 +25,25 @@ Proof.
   destruct (Nat.leb_spec (len data) pos'); [sdone|]. apply IH; [assumption|lia|lia].
 Qed.
 
-Theorem hbh_parse_partial p : wf p -> known_C08_hbh_short p = false ->
-  forall fuel, (cap p <= fuel)%nat -> safe (hbh_parse fuel p).
-Proof.
-  intros Hw Hk fuel Hf. unfold known_C08_hbh_short in Hk. unfold hbh_parse.
-  rewrite idx_ok by lia. cbn [bind].
-  rewrite sl_ok by lia. cbn [bind].
-  apply hbh_loop_safe; [slen| cbn [len]; lia | cbn [len]; unfold wf in Hw; lia].
-Qed.
-
-Theorem hbh_parse_valid p : wf p -> hbh_is_valid p = true ->
+Theorem hbh_parse_total p : wf p ->
   forall fuel, (len p <= fuel)%nat -> safe (hbh_parse fuel p).
 Proof.
-  intros Hw Hv fuel Hf. unfold hbh_is_valid in Hv.
-  destruct (Nat.ltb_spec (len p) 2); [discriminate|].
-  destruct (Nat.ltb_spec (len p) (N.to_nat (nth 1 (arr p) 0) * 8 + 8 + 2)); [discriminate|].
-  unfold hbh_parse. rewrite idx_ok by lia. cbn [bind].
+  intros Hw fuel Hf. unfold hbh_parse.
+  destruct (Nat.ltb_spec (len p) 2); [sdone|].
+  rewrite idx_ok by lia. cbn [bind].
+  destruct (Nat.ltb_spec (len p) (N.to_nat (nth 1 (arr p) 0) * 8 + 8)); [sdone|].
   rewrite sl_ok by (unfold wf in Hw; lia). cbn [bind].
   apply hbh_loop_safe; [slen| cbn [len]; lia | cbn [len]; lia].
 Qed.
 
-(* the known class is exact: every header in it panics, whatever the fuel *)
-Theorem hbh_parse_short_panics p : wf p -> known_C08_hbh_short p = true ->
-  forall fuel, hbh_parse fuel p = Panic.
-Proof.
-  intros Hw Hk fuel. unfold known_C08_hbh_short in Hk. unfold hbh_parse.
-  destruct (Nat.ltb_spec (len p) 2).
-  - rewrite idx_panic by lia. reflexivity.
-  - rewrite idx_ok by lia. cbn [bind]. rewrite sl_panic by lia. reflexivity.
-Qed.
-
-Theorem hbh_parse_refuted :
-  exists p, wf p /\ bytes_ok (arr p) /\ forall fuel, hbh_parse fuel p = Panic.
-Proof.
-  exists (of_bytes [58; 1; 1; 4; 0; 0; 0; 0]). split; [unfold wf, cap; cbn; lia|].
-  split; [apply bytes_okb_spec; reflexivity|].
-  intros fuel. apply hbh_parse_short_panics; [unfold wf, cap; cbn; lia|reflexivity].
-Qed.
+(* the former defect class: short headers are now an error *)
+Example hbh_short_is_error :
+  hbh_parse 10 (of_bytes [58]) = Err EParseFrame /\
+  hbh_parse 10 (of_bytes [58; 1; 1; 4; 0; 0; 0; 0]) = Err EParseFrame.
+Proof. split; vm_compute; reflexivity. Qed.
 
 (* non-vacuity: a valid header with router alert + PadN, as sent with MLD reports *)
 Example hbh_nonvacuous :
   let p := of_bytes [58; 0; 5; 2; 0; 0; 1; 0; 1; 2] in
-  wf p /\ hbh_is_valid p = true /\ known_C08_hbh_short p = false /\ hbh_parse 10 p = Ok tt.
-Proof. cbv zeta. split; [unfold wf, cap; cbn; lia|]. repeat split; vm_compute; reflexivity. Qed.
+  wf p /\ hbh_is_valid p = true /\ hbh_parse 10 p = Ok tt.
+Proof. cbv zeta. split; [unfold wf, cap; cbn; lia|]. split; vm_compute; reflexivity. Qed.
